@@ -331,7 +331,11 @@ class AtomsEngine(Engine):
             obj, exc = None, e
         finally:
             fired = _PROXY.fired if fault else 0
-            _PROXY.arm(None)
+            if fault:
+                # only the op that armed the plan disarms it: a nested (pre-empting) lookup may
+                # run while the outer op is still unwinding from its injected fault (the
+                # with-statement cleanup is a line event, i.e. a legal pre-emption point)
+                _PROXY.arm(None)
         ci1 = self._cache_info(kind)
         if ci0 and ci1:
             if ci1.misses > ci0.misses:
